@@ -499,4 +499,29 @@ theorem C20_blame_type_declaration (p : String) (env : Env) (s : Schema) (t : Ty
      (∃ items, t.body = .select items ∧ ∃ x ∈ items, d.args.head? = some (sArg x.1) ∧ d.line = x.2 ∧ ¬ DenotesType env s x.1)) :=
   typeDecl_blames p env s t d h
 
+open Resolve in
+/-- WRONG_ARG_COUNT ("Call to %s uses %d arguments, but expected %d.") quotes the number of arguments the call is written with and the
+    parameter count of the function it names (upper-cased for a built-in), on the call's line -/
+theorem C20_wrong_arg_count_quotes_counts (p : String) (s : Schema) (r : Rule) (fn : String) (argc : Nat) (d : Diag)
+    (h : d ∈ callDiags p s r fn argc) (hc : d.code = LibErrors.WRONG_ARG_COUNT) :
+    d.line = r.line ∧ ∃ (name : String) (k : Nat), d.args = [sArg name, .int argc, .int k] ∧ k ≠ argc ∧
+      ((∃ fd, findFunc s fn = some fd ∧ k = fd.nparams ∧ name = fn) ∨
+       (findFunc s fn = none ∧ builtinArity fn = some k ∧ name = fn.toUpper)) :=
+  callCount_blames p s r fn argc d h hc
+
+open Resolve in
+/-- for a call with an argument list the count check is made for the number of arguments WRITTEN, whichever of them resolve -/
+theorem C20_call_count_independent_of_arguments (p : String) (env : Env) (s : Schema) (fuel : Nat) (e : Entity) (r : Rule)
+    (fn : String) (args : List CallArg) (d : Diag) (h : d ∈ callDiags p s r fn args.length) :
+    d ∈ callWithDiags p env s fuel e r fn args :=
+  callWith_count p env s fuel e r fn args d h
+
+open Resolve in
+/-- the arguments are resolved left to right and the walk stops at the first one that fails: its diagnostics are the last ones of
+    the walk, later arguments are not looked at -/
+theorem C20_first_failing_argument_reported (diagsOf : CallArg → List Diag) (sees : CallArg → Bool) (pre : List CallArg)
+    (a : CallArg) (post : List CallArg) (hpre : ∀ x ∈ pre, hasError (diagsOf x) = false) (ha : hasError (diagsOf a) = true) :
+    (argsRun diagsOf sees (pre ++ a :: post)).1 = pre.flatMap diagsOf ++ diagsOf a :=
+  argsRun_first_failure diagsOf sees pre a post hpre ha
+
 end StepModel.Express.C20
